@@ -9,9 +9,10 @@ func init() {
 			"SIGXFSZ in mid-write at a chosen file offset, or one " +
 			"failure actually delivered to a store (strace error injection, read-only remount, full tmpfs, vanished directory, fd / file-size limit, " +
 			"unmarshalable configuration), each followed by the comparison of the ClientConf file with {state before the store, configuration being stored} " +
-			"(and, for failed whole-ClientConf stores, of the in-memory configuration with its snapshot). distinct_nontrivial = distinct crash states reached by " +
+			"(and, for failed whole-ClientConf stores, of the in-memory configuration with its snapshot). Directories are not tidied after a death: the next " +
+			"process's first store is a small one next to the orphaned temp file and is judged the same way (counter stale_temp_present_before_small_store). distinct_nontrivial = distinct crash states reached by " +
 			"kills that landed inside a store (setter, size class, temp-file length / renamed) + distinct (setter, size, system call, index) crash points inside " +
-			"stores + distinct (setter, size, offset) mid-write deaths + distinct (failure kind, setter, size, errno) failures delivered",
+			"stores + distinct (setter, size, offset) mid-write deaths + distinct (sub-stage, setter) aftermath stores with a stale temp present + distinct (failure kind, setter, size, errno) failures delivered",
 		Assumptions: []string{
 			"process death is modelled by SIGKILL: the page cache survives, so durability across power loss (fsync) is outside the statement and outside the monitor",
 			"strace delivers SIGKILL on entering the chosen system call; the call itself may or may not have taken effect (both are legitimate crash points)",
